@@ -320,7 +320,7 @@ func (a *unitAgg) merge(w *workerResult) {
 
 func workerEnv(extra ...string) []string {
 	env := os.Environ()
-	env = append(env, "GODEBUG=asynctimerchan=0")
+	env = append(env, "GODEBUG=asynctimerchan=0", "TZ=UTC")
 	return append(env, extra...)
 }
 
@@ -333,6 +333,7 @@ func runUnit(u unit, scratch, tier, mode string, seedBase int64, wall time.Durat
 	var wg sync.WaitGroup
 	rdir := filepath.Join(scratch, ".zreplay")
 	os.MkdirAll(rdir, 0o755)
+	os.MkdirAll(filepath.Join(scratch, ".ztmp"), 0o755)
 	for p := 0; p < procs; p++ {
 		wg.Add(1)
 		go func(p int) {
@@ -352,7 +353,8 @@ func runUnit(u unit, scratch, tier, mode string, seedBase int64, wall time.Durat
 				env := workerEnv(
 					"ZSIM_MODE="+mode, "ZSIM_TIER="+tier,
 					"ZSIM_FROM="+strconv.FormatInt(from, 10), "ZSIM_N="+strconv.FormatInt(chunk, 10),
-					"ZSIM_WALL="+strconv.Itoa(int(left.Seconds())+1), "ZSIM_OUT="+out, "ZSIM_REPLAY_DIR="+rdir)
+					"ZSIM_WALL="+strconv.Itoa(int(left.Seconds())+1), "ZSIM_OUT="+out, "ZSIM_REPLAY_DIR="+rdir,
+					"ZSIM_TMP="+filepath.Join(scratch, ".ztmp"))
 				if gomaxprocs > 0 {
 					env = append(env, "GOMAXPROCS="+strconv.Itoa(gomaxprocs))
 				}
@@ -478,7 +480,8 @@ func matchFinding(fs []finding, id, harness string, v *viol) *finding {
 
 // confirm replays a violation's replay file in a fresh process.
 func confirm(u unit, scratch, path string, verbose bool) (bool, string) {
-	env := workerEnv("ZSIM_MODE=replay", "ZSIM_REPLAY="+path)
+	os.MkdirAll(filepath.Join(scratch, ".ztmp"), 0o755)
+	env := workerEnv("ZSIM_MODE=replay", "ZSIM_REPLAY="+path, "ZSIM_TMP="+filepath.Join(scratch, ".ztmp"))
 	if verbose {
 		env = append(env, "ZSIM_VERBOSE=1")
 	}
